@@ -1062,7 +1062,7 @@ class Node(object):
                 node.attributes.update(self.attributes)
             if self.hasChildNodes():
                 for x in self.childNodes:
-                    node.append(x)
+                    node.append(x, setParent=False)
         return node
 
     def normalize(self, charsubs=None):
